@@ -62,7 +62,11 @@ def r1(ctx, chk):
                 problems.append("returns a value")
             elif isinstance(n, ast.Call):
                 nm = ast.unparse(n.func).split(".")[-1]
-                if nm not in PURE_CALLS:
+                # filling a list / set this function created itself changes nothing outside it
+                local_box = isinstance(n.func, ast.Attribute) and nm in ("append", "add", "extend") and isinstance(n.func.value, ast.Name) and any(
+                    isinstance(m_, ast.Assign) and len(m_.targets) == 1 and isinstance(m_.targets[0], ast.Name) and m_.targets[0].id == n.func.value.id
+                    and ast.unparse(m_.value) in ("[]", "set()", "list()") for m_ in iter_own_nodes(f.node)) and n.func.value.id not in f.params()
+                if nm not in PURE_CALLS and not local_box:
                     problems.append("calls %s" % nm)
             elif isinstance(n, (ast.Global, ast.Nonlocal, ast.Delete, ast.Yield, ast.YieldFrom)):
                 problems.append(type(n).__name__)
@@ -81,37 +85,45 @@ def r1(ctx, chk):
                     chk.ob(rule, "%s calls the filter as a statement" % c.qual, isinstance(par, ast.Expr),
                            "the filter's value is used", key={"function": ck, "construct": "filter call is a statement"},
                            file=c.file, function=c.qual, line=s.node.lineno)
-    # the filter raises for STRICT_PARSING and any missing part; for REQUIRE_PARTS exactly for the required parts that are missing
+    # the filter raises for STRICT_PARSING and any missing part; for REQUIRE_PARTS exactly when a required part is missing - decided by
+    # evaluating the function for every combination of (STRICT_PARSING, REQUIRE_PARTS, missing parts)
+    import itertools
+    from ..core.minieval import Evaluator, Raised, Unknown
     f = ix.func(FILTER)
     p = f.params()
     miss, st = p[0], p[1]
-    raises = [n for n in iter_own_nodes(f.node) if isinstance(n, ast.Raise)]
-    strict_ok = require_ok = False
-    detail = []
-    for r in raises:
-        pos, neg = set(), set()
-        for t, pol in enclosing_tests(f.node, r):
-            for a, q in conjuncts(t, pol):
-                (pos if q else neg).add(" ".join(ast.unparse(a).split()))
-        detail.append("raise under %s, not %s" % (sorted(pos), sorted(neg)))
-        if pos == {st + ".STRICT_PARSING", miss}:
-            # strictness must not depend on anything else being off (in particular not on REQUIRE_PARTS being empty)
-            strict_ok = not neg
-            if neg:
-                detail.append("the STRICT_PARSING rejection is only reached when %s is false" % sorted(neg))
-        elif st + ".REQUIRE_PARTS" in pos and miss in pos and len(pos) == 3 and not any("REQUIRE" in x for x in neg):
-            ev = (pos - {st + ".REQUIRE_PARTS", miss}).pop()
-            defs = [n for n in iter_own_nodes(f.node) if isinstance(n, ast.Assign) and len(n.targets) == 1 and ast.unparse(n.targets[0]) == ev]
-            if len(defs) == 1 and isinstance(defs[0].value, ast.ListComp) and len(defs[0].value.generators) == 1:
-                lc = defs[0].value
-                gen = lc.generators[0]
-                v = ast.unparse(gen.target)
-                require_ok = (ast.unparse(lc.elt) == v and ast.unparse(gen.iter) == st + ".REQUIRE_PARTS" and len(gen.ifs) == 1
-                              and " ".join(ast.unparse(gen.ifs[0]).split()) == "%s in %s" % (v, miss))
-                if not require_ok:
-                    detail.append("required-and-missing list is `%s`" % " ".join(ast.unparse(lc).split()))
-    chk.ob(rule, "_check_strict_parsing: STRICT => any missing part fails; REQUIRE_PARTS => exactly the required missing parts fail", strict_ok and require_ok,
-           "; ".join(detail), key={"function": FILTER, "construct": "filter semantics"}, file=f.file, function=f.qual, line=f.node.lineno)
+    parts = ("day", "month", "year")
+    subsets = [list(c) for k_ in range(4) for c in itertools.combinations(parts, k_)]
+    wrong, n_comb = [], 0
+    try:
+        for strict in (False, True):
+            for req in subsets:
+                for missing in subsets:
+                    def oracle(e, env, strict=strict, req=req):
+                        if isinstance(e, ast.Attribute) and isinstance(e.value, ast.Name) and e.value.id == st:
+                            if e.attr == "STRICT_PARSING":
+                                return strict
+                            if e.attr == "REQUIRE_PARTS":
+                                return list(req)
+                        raise Unknown(ast.unparse(e)[:40])
+                    try:
+                        Evaluator(oracle).call(f.node, {miss: list(missing), st: object()})
+                        raised = False
+                    except Raised as r_:
+                        raised = True
+                        if "ValueError" not in r_.text:
+                            wrong.append((strict, req, missing, "raises %s" % r_.text[:30]))
+                    want = bool((strict and missing) or (set(req) & set(missing)))
+                    n_comb += 1
+                    if raised != want:
+                        wrong.append((strict, req, missing, "rejected" if raised else "accepted"))
+    except Unknown as e_:
+        chk.error(rule, "_check_strict_parsing: the decision is computed by something this rule cannot evaluate (%s)" % e_)
+        return
+    chk.ob(rule, "_check_strict_parsing: STRICT => any missing part fails; REQUIRE_PARTS => exactly the required missing parts fail "
+                 "(%d combinations evaluated)" % n_comb, not wrong,
+           "(STRICT_PARSING, REQUIRE_PARTS, missing) -> outcome: %s" % wrong[:3], key={"function": FILTER, "construct": "filter semantics"},
+           file=f.file, function=f.qual, line=f.node.lineno)
 
 
 # ---------------------------------------------------------------------------
